@@ -74,13 +74,6 @@ def run(R):
     for i in range(0, len(jobs), 2000):
         recs = gramrun.run_grammars(jobs[i:i + 2000])
         gramrun.compare(R, recs, 'core')
-        bad, nflags = gramrun.flags_lines(recs)
-        st = R.stream('flags')
-        st['cases'] += nflags
-        for (r, idx, want, got) in bad[:50]:
-            R.disagree('flags', {'grammar': r['desc'], 'rule': r['ex']['rule_names'][idx]},
-                       'python flags ' + want, 'model flags ' + got)
-        st['model_vs_impl_disagreements'] += max(0, len(bad) - 50)
     R.assumptions += ['regular expressions are an oracle (tables computed with Python re for each text)',
                       'generated grammars are filtered by a static well-formedness test (no nullable under repetition); '
                       'ill-formed ones are outside the property']
